@@ -438,8 +438,24 @@ class P:
                 self.expect("|")
             body = self.expr()
             return ("closure", params, body)
-        if self.at("while") or self.at("loop") or self.at("for"):
-            raise ParseError("loops are outside the translated subset")
+        if self.at("for"):
+            # `for PAT in A..B { … }` (a counted loop) — the only loop form in the translated subset besides `while`
+            self.i += 1
+            pat = self.pat()
+            self.expect("in")
+            lo = self.expr(nostruct=True)
+            if not self.eat(".."):
+                raise ParseError("`for` over something that is not a range `a..b`")
+            hi = self.expr(nostruct=True)
+            body = self.block()
+            return ("for", pat, ("range", lo, hi), body)
+        if self.at("while") and not (self.peek(1) == ("id", "let") or self.peek(1) == ("kw", "let")):
+            self.i += 1
+            cond = self.expr(nostruct=True)
+            body = self.block()
+            return ("while", cond, body)
+        if self.at("while") or self.at("loop"):
+            raise ParseError("`loop` / `while let` are outside the translated subset")
         if t[0] == "id" or (t == ("p", "::") and self.peek(1)[0] == "id"):
             segs = self.path()
             if self.at("!"):           # macro
